@@ -173,7 +173,7 @@ fn split_after_first_ac(text: &str) -> Option<(&str, &str)> {
 pub fn sem_case_o(prop: &str, text: &str, orc: &Oracle, sorting: usize, labels: &[String], out: &mut Found, st: &mut Stats) {
     sem_case_inner(prop, text, orc, sorting, labels, out, st, false, None);
     VARMAP.with(|vm| *vm.borrow_mut() = None);
-    if sorting == 0 && (2..=3).contains(&orc.n) && hash64(text.as_bytes()) % 4 == 0 {
+    if sorting == 0 && (2..=3).contains(&orc.n) && hash64(text.as_bytes()) % 8 == 0 {
         // the same input read in two portions by one parser object, with an instantiation (native and biodivine) after
         // the first portion: every object below is made after the second portion and must be an object of the whole input
         if let Some(portions) = split_after_first_ac(text) {
@@ -462,8 +462,8 @@ fn sem_case_inner(prop: &str, text: &str, orc: &Oracle, sorting: usize, labels: 
                 }) {
                     cmp_models(&l, &r, &want, n, out);
                 }
-                // ... and a after b (native and pre-grounded hybrid objects)
-                if which <= 1 {
+                // ... and a after b (native objects)
+                if which == 0 {
                     let l = format!("{}.heu_b-then-heu_a", label);
                     if let Some(r) = guarded(&l, out, st, || {
                         let mut adf = mk().unwrap();
